@@ -2,13 +2,13 @@
 // as NDJSON for Trace_EdgeCollapse.tla (the oracle, evaluated by TLC).  Built four times: with / without
 // -DGUDHI_COLLAPSE_USE_DENSE_ARRAY and with / without -DGUDHI_USE_TBB.
 //   collapse_run cases  <cases.ndjson> <out.ndjson> <seed> <build>   inputs enumerated by MC_EdgeCollapse (CASE lines)
-//   collapse_run random <count>        <out.ndjson> <seed> <build>   seeded graphs on 7-9 vertices, many equal weights
+//   collapse_run random <count>        <out.ndjson> <seed> <build> [big]  seeded graphs on 7-9 (big: 9-11) vertices, many equal weights
 //   collapse_run sparse <count>        <out.ndjson> <seed> <build>   large sparse graphs (> 500 edges: the parallel sort
 //                                                                     of the TBB build really runs in parallel)
 // Every input is run in several presentations of the same abstract call (documented: any range of
 // tuple<Vertex, Vertex, Filtration>, no need to be sorted): order as given / shuffled order and orientation /
 // non-contiguous shuffled vertex numbers with an increasing affine change of the values, short + float in a std::list /
-// a boost transformed range of long + double.
+// a boost transformed range of long + double / unsigned vertices / (equal weights only) unsigned short and unsigned char.
 #include "collapse_common.hpp"
 
 using namespace vf;
@@ -44,15 +44,15 @@ int main(int argc, char** argv) {
     long count = std::strtol(argv[2], nullptr, 10);
     for (long i = 0; i < count; ++i) {
       std::string fam;
-      Graph g = random_graph(rng, i, fam);
-      rec.run_all("r" + std::to_string(seed) + "." + std::to_string(i) + "." + fam, g, false);
+      Graph g = random_graph(rng, i, fam, argc > 6 && std::string(argv[6]) == "big");
+      rec.run_all("R." + std::to_string(seed) + "." + std::to_string(i) + "." + fam, g, i % 5 == 0);
     }
     std::fprintf(out, "{\"kind\":\"summary\",\"build\":\"%s\",\"inputs\":%ld,\"calls\":%ld}\n", build.c_str(), count, rec.calls);
   } else if (mode == "sparse") {
     long count = std::strtol(argv[2], nullptr, 10);
     for (long i = 0; i < count; ++i) {
       Graph g = sparse_graph(rng, i);
-      rec.run_all("s" + std::to_string(seed) + "." + std::to_string(i), g, false);
+      rec.run_all("S." + std::to_string(seed) + "." + std::to_string(i), g, false);
     }
     std::fprintf(out, "{\"kind\":\"summary\",\"build\":\"%s\",\"inputs\":%ld,\"calls\":%ld}\n", build.c_str(), count, rec.calls);
   } else {
